@@ -38,7 +38,7 @@ ASSUMPTIONS = ["assembled quantities compared with |got-ref| <= 1e-8*max(1,|ref|
 QUICK_JOBS = 16
 MIN_MONITORS = {"*": {"D.vs_ref": 2, "F.vs_ref": 2, "F.symmetric": 2, "formalisms.D": 1, "formalisms.F": 1,
                       "formalisms.reconstruction": 1, "formalisms.mapped": 1, "factory.formalism": 1, "blocks.order": 1,
-                      "operated.vs_ref": 1, "mapped.vs_ref": 1, "DF.after_solve": 1, "dataset_reused.other_objects": 20}}
+                      "operated.vs_ref": 1, "mapped.vs_ref": 1, "DF.after_solve": 1, "dataset_reused.other_objects": 20, "dataset_derived.after_w_tilde": 20}}
 RT = 1e-8
 
 
@@ -199,6 +199,28 @@ def run_case(ctx, i):
             if ok:
                 ctx.check(relclose(DF[0], Dref2, RT) and relclose(DF[1], Fref2, RT), "dataset_reused.other_objects", formalism="w_tilde" if use_w else "mapping",
                           second_objects=desc2, got_D=DF[0], expected_D=Dref2, **W)
+    # history: datasets DERIVED from one whose w-tilde tables / convolver have already been computed (apply_over_sampling): their inversions are the normal equations of the derived dataset's own PSF, noise map and grids
+    if i % 3 == 1:
+        try:
+            case["ds"].w_tilde
+            case["ds"].convolver
+        except Exception:
+            pass
+        derived = []
+        ok, ds2 = ctx.guarded("dataset_derived.after_w_tilde", lambda: case["ds"].apply_over_sampling(
+            over_sampling=aa.OverSamplingDataset(pixelization=aa.OverSamplingUniform(sub_size=int(rng.integers(1, 4))))))
+        if ok:
+            derived.append(("apply_over_sampling", dict(case, ds=ds2)))
+        for how, case2 in derived:
+            objs2, desc2 = gen_aa.linear_objects(aa, rng, case2, overrides=False)
+            B2, Dref2, Fref2, k2 = reference(case2, objs2, diag)
+            for use_w in (False, True):
+                st = aa.SettingsInversion(use_w_tilde=use_w, use_positive_only_solver=False, no_regularization_add_to_curvature_diag_value=diag)
+                ok, DF = ctx.guarded("dataset_derived.after_w_tilde", lambda: (lambda v: (_np(v.data_vector).copy(), _np(v.curvature_matrix).copy()))(
+                    aa.Inversion(dataset=case2["ds"], linear_obj_list=objs2, settings=st)))
+                if ok:
+                    ctx.check(relclose(DF[0], Dref2, RT) and relclose(DF[1], Fref2, RT), "dataset_derived.after_w_tilde", derived_by=how,
+                              formalism="w_tilde" if use_w else "mapping", objects_on_derived=desc2, psf_of_derived=k2, got_F=DF[1], expected_F=Fref2, **W)
     k = case["k"]
     cls = ["kernel:%s" % case["kernel_kind"], "kshape:%dx%d" % k.shape, "data:%s" % case["data_kind"], "nobj:%d" % len(objs),
            "objs:" + "+".join(d["kind"] for d in desc)]
@@ -212,8 +234,9 @@ def run_case(ctx, i):
         cls.append("normalized_psf")
     if case["noise_scale"] != 1.0:
         cls.append("noise_scale:1e%d" % int(np.floor(np.log10(case["noise_scale"]))))
+    cls.append("sub_size:per_pixel_map" if isinstance(case["sub"], np.ndarray) else "sub_size:uniform")
     ctx.case(case["m"], k, case["d"], case["noise"], B, nontrivial=(k.size > 1 or len(objs) > 1), cls=cls,
-             sample=lambda: {"mask": case["m"].astype(int).tolist(), "kernel": k.tolist(), "objects": desc, "sub": case["sub"],
+             sample=lambda: {"mask": case["m"].astype(int).tolist(), "kernel": k.tolist(), "objects": desc, "sub": np.asarray(case["sub"]).tolist(),
                              "diag": diag, "data_kind": case["data_kind"]})
 
 
